@@ -59,6 +59,13 @@ func (mgr *TopicManager) subscribe(topics []string, qoss []byte, clientID string
 	mgr.Lock()
 	defer mgr.Unlock()
 
+	// a packet with an invalid topic is rejected as a whole, check all the
+	// topics before any of them is inserted.
+	for _, t := range topics {
+		if _, err := mgr.getLevels(t); err != nil {
+			return err
+		}
+	}
 	for i, t := range topics {
 		if err := mgr.insert(t, qoss[i], clientID); err != nil {
 			return err
@@ -71,12 +78,15 @@ func (mgr *TopicManager) unsubscribe(topics []string, clientID string) error {
 	mgr.Lock()
 	defer mgr.Unlock()
 
+	// an invalid topic has no subscription to remove, but it must not keep
+	// the other topics of the packet subscribed.
+	var err error
 	for _, t := range topics {
-		if err := mgr.remove(t, clientID); err != nil {
-			return err
+		if e := mgr.remove(t, clientID); e != nil && err == nil {
+			err = e
 		}
 	}
-	return nil
+	return err
 }
 
 // findSubscribers is used to find all clients that subscribe a certain topic directly or use wildcard.
